@@ -443,8 +443,8 @@ func vfSettle(d time.Duration) {
 // repeated because an emptying chain may enqueue the negotiation-needed check.
 func vfDrain(max time.Duration, peers ...*vfPeer) bool {
 	ok := true
-	for round := 0; round < 4; round++ {
-		for _, p := range peers {
+	for _, p := range peers {
+		for round := 0; round < 8; round++ {
 			done := make(chan struct{})
 			go func(p *vfPeer) { p.pc.ops.Done(); close(done) }(p)
 			if !vfWaitFor(max, func() bool {
@@ -457,18 +457,15 @@ func vfDrain(max time.Duration, peers ...*vfPeer) bool {
 			}) {
 				ok = false
 			}
-		}
-		synctest.Wait()
-		idle := true
-		for _, p := range peers {
-			if !p.pc.ops.IsEmpty() {
-				idle = false
+			// everything the emptied chain triggered (the negotiation-needed check it may re-enqueue)
+			// has run once every goroutine is blocked again; only then look at the queue
+			synctest.Wait()
+			if p.pc.ops.IsEmpty() && !p.pc.updateNegotiationNeededFlagOnEmptyChain.Load() {
+				break
 			}
 		}
-		if idle {
-			break
-		}
 	}
+	synctest.Wait()
 	return ok
 }
 
